@@ -11,6 +11,7 @@ CONSTANTS
   MaxOps = 30
   MaxProbes = 2
   SetLevels = {}
+  BadActivations = "no"
 INIT GInit
 NEXT GNext
 INVARIANT InvSessionRequired
